@@ -149,6 +149,17 @@ pub fn gen_plan(rng: &mut Rng, variant: u64, tier: Tier, only_commit_and_log_tai
 	let reindex = kind == "reindex";
 	let mut mood = rng.below(4);
 	let mut queued = 0usize;
+	// every third history starts with a scripted "log recycling" prefix: two flushed log
+	// files, the first one applied and reclaimed, its file reused for a NEWER record while the
+	// older file is still pending - so that file-id order differs from record order when both
+	// are finally reclaimed by one clean_logs.
+	let mut script: Vec<u8> = if variant % 3 == 2 && !only_commit_and_log_tail {
+		// 0 commit, 1 process, 3 flush, 4 enact_one, 5 enact_all, 6 clean
+		vec![0, 1, 3, 0, 1, 3, 4, 4, 6, 0, 1, 3, 5, 6, 0, 1, 3, 0, 1, 3, 4, 6, 0, 1, 3, 5, 6]
+	} else {
+		vec![]
+	};
+	script.reverse();
 	for i in 0..n_acts {
 		if i % 8 == 7 {
 			mood = rng.below(4);
@@ -168,7 +179,11 @@ pub fn gen_plan(rng: &mut Rng, variant: u64, tier: Tier, only_commit_and_log_tai
 		if reindex {
 			w[2] *= 3;
 		}
-		match rng.weighted(&w) {
+		let choice = match script.pop() {
+			Some(c) => c as usize,
+			None => rng.weighted(&w),
+		};
+		match choice {
 			0 => {
 				let mut tx = vec![];
 				let ncols = cfg.cols.len();
